@@ -1261,7 +1261,12 @@ class FnEmitter:
                 if op == '==' and not (self.generic_f and self.mod.generic_ok):
                     return self.f_op('eq', [x, y], 'bool')
                 if op in ('==', '!=') and self.generic_f and y.ty == 'F':
-                    e_ = 'O.beq %s %s = true' % (paren(x.e), paren(y.e))
+                    if y.e in ('O.ofNat 0', 'O.ofNat 1'):
+                        e_ = 'O.%s %s = true' % ('isZero' if y.e.endswith('0') else 'isOne', paren(x.e))
+                    elif x.e in ('O.ofNat 0', 'O.ofNat 1'):
+                        e_ = 'O.%s %s = true' % ('isZero' if x.e.endswith('0') else 'isOne', paren(y.e))
+                    else:
+                        e_ = 'O.beq %s %s = true' % (paren(x.e), paren(y.e))
                     return SV(e_ if op == '==' else '¬ (%s)' % e_, 'bool', fv | {'O'})
                 raise TranslateError('ordering on field elements')
             if x.ty != y.ty:
@@ -1868,8 +1873,21 @@ class FnEmitter:
                 raise TranslateError('statement %s' % k)
         if final is None:
             return SV(items=[])
-        if final[0] == 'if' and final[3] is None:
-            # a trailing `if c { .. }` without `else` is a statement of unit type
+        def stmt_like(e):
+            # an `if` all of whose branches are blocks without a value
+            if e[0] != 'if':
+                return False
+            for b in (e[2], e[3]):
+                if b is None:
+                    continue
+                if b[2] is None:
+                    continue
+                if not b[1] and stmt_like(b[2]):
+                    continue
+                return False
+            return True
+        if final[0] == 'if' and (final[3] is None or stmt_like(final)):
+            # a trailing `if c { .. } [else { .. }]` whose branches have no value is a statement of unit type
             self.ifstmt(final, env)
             return SV(items=[])
         if final[0] == 'return':
@@ -1942,6 +1960,12 @@ class FnEmitter:
             elif st[0] in ('while',):
                 self.assigned_names(st[2], acc)
             elif st[0] == 'for':
+                e = st[2]
+                while e[0] == 'method' and e[2] in ('zip', 'rev', 'enumerate'):
+                    e = e[1]
+                if e[0] == 'method' and e[2] == 'iter_mut' and e[1][0] == 'path' and len(e[1][1]) == 1 \
+                        and e[1][1][0] not in acc:
+                    acc.append(e[1][1][0])          # the vector the loop mutates element by element
                 self.assigned_names(st[3], acc)
         if blk[2] is not None and blk[2][0] == 'if':
             self.assigned_in_if(blk[2], acc)
@@ -2853,5 +2877,8 @@ structure FOpsX (F : Type) extends FOps F where
   inv : F → F
   div : F → F → F
   beq : F → F → Bool
+  /-- `x == E::ZERO`, `x == E::ONE` -/
+  isZero : F → Bool
+  isOne : F → Bool
   pow : F → Nat → F
 '''
